@@ -6,7 +6,8 @@
 From RU Require Import Base.Prelude Base.Utf8 Base.Utf8Facts Model.AsciiSet Gen.Tables
   Model.PercentEncoding Model.HostT Model.UrlRecord Model.Parser Model.KnownC01 Spec.Whatwg
   Proofs.C08_Input Proofs.C01_EqRun Proofs.C01_EqEnc Proofs.C01_EqPathSpec Proofs.C01_EqPath Proofs.C01_EqAuthSpec
-  Proofs.C01_EqAuthModel Proofs.C01_EqClasses2 Proofs.C01_EqSpSpec Proofs.C01_EqSpPath Proofs.C01_EqSpModel Proofs.C01_EqSp.
+  Proofs.C01_EqAuthModel Proofs.C01_EqClasses2 Proofs.C01_EqSpSpec Proofs.C01_EqSpPath Proofs.C01_EqSpModel Proofs.C01_EqSp
+  Proofs.C01_KnownExact.
 
 (* ================= drive-letter-shaped segments: raw text vs the Standard's buffer ================= *)
 Definition no_pe (s : list N) : bool := forallb (fun c => negb (is_path_end c)) s.
@@ -172,41 +173,33 @@ Lemma sp_class_ok_nodrive R : has_drive_segment R = false -> sp_class_ok (drop_s
 Proof. exact (sp_class_ok_nodrive_from None R). Qed.
 
 (* ================= Known_C01 on a text with a special scheme ================= *)
-Lemma scheme_cp_not_colon c : is_scheme_cp c = true -> (c =? 58) = false.
-Proof. unfold is_scheme_cp, is_alnum, is_alpha, is_upper, is_lower, is_digit. intros H. lia. Qed.
-
-Lemma scheme_scan_leading t : forall buf sch R, scheme_scan buf t = Some (sch, R) ->
-  leading_scheme_loop (rev buf) t = Some sch /\ after_colon t = R.
-Proof.
-  induction t as [|c r IH]; intros buf sch R H; [discriminate H|]. cbn [scheme_scan] in H.
-  cbn [leading_scheme_loop after_colon]. change (is_alnum c || (c =? 43) || (c =? 45) || (c =? 46)) with (is_scheme_cp c).
-  destruct (is_scheme_cp c) eqn:Ec.
-  - rewrite (scheme_cp_not_colon c Ec). specialize (IH _ _ _ H). rewrite rev_app_distr in IH. exact IH.
-  - destruct (c =? 58); [|discriminate H]. inversion H; subst. rewrite rev_involutive. split; reflexivity.
-Qed.
-
-Lemma known_special_nodrive input sch R :
-  spec_scheme (spec_clean input) = Some (sch, R) -> is_special_scheme sch = true -> known_c01 None input = 0 ->
+(* the former broad predicate: no drive-letter-shaped piece in the raw text *)
+Lemma known_special_nodrive_broad input sch R :
+  spec_scheme (spec_clean input) = Some (sch, R) -> is_special_scheme sch = true -> known_c01_broad None input = 0 ->
   list_eqb sch str_file = false /\ has_drive_segment R = false.
 Proof.
-  intros Hs Hsp Hk. unfold known_c01 in Hk. cbv zeta in Hk.
-  change (cleaned input) with (ntnl (input_new_trim_c0 input)) in Hk. rewrite <- spec_clean_is_ntnl_trim in Hk.
-  set (t := spec_clean input) in *.
-  assert (leading_scheme t = Some sch /\ after_colon t = R) as [E1 E2].
-  { unfold spec_scheme in Hs. unfold leading_scheme. destruct t as [|c r]; [discriminate Hs|].
-    destruct (is_alpha c); [|discriminate Hs]. exact (scheme_scan_leading (c :: r) [] sch R Hs). }
+  intros Hs Hsp Hk. unfold known_c01_broad in Hk. cbv zeta in Hk. rewrite cleaned_spec_clean in Hk.
+  destruct (spec_scheme_some_leading _ _ _ Hs) as [E1 E2].
   rewrite E1, E2 in Hk. change s_file with str_file in Hk.
   destruct (list_eqb sch str_file); [discriminate Hk|]. cbn [orb] in Hk.
   destruct (has_drive_segment R); [discriminate Hk|]. split; reflexivity.
 Qed.
 
-(* every input with a special non-file scheme outside Known_C01 is in the class *)
+Theorem special_class_covers_known_broad input sch R :
+  spec_scheme (spec_clean input) = Some (sch, R) -> is_special_scheme sch = true -> known_c01_broad None input = 0 ->
+  in_class_special input = true.
+Proof.
+  intros Hs Hsp Hk. destruct (known_special_nodrive_broad input sch R Hs Hsp Hk) as [Hf Hd].
+  unfold in_class_special. rewrite Hs, Hsp, Hf. cbn [negb andb]. apply sp_class_ok_nodrive. exact Hd.
+Qed.
+
+(* every input with a special non-file scheme outside Known_C01 (the exact classes) is in the class *)
 Theorem special_class_covers_known input sch R :
   spec_scheme (spec_clean input) = Some (sch, R) -> is_special_scheme sch = true -> known_c01 None input = 0 ->
   in_class_special input = true.
 Proof.
-  intros Hs Hsp Hk. destruct (known_special_nodrive input sch R Hs Hsp Hk) as [Hf Hd].
-  unfold in_class_special. rewrite Hs, Hsp, Hf. cbn [negb andb]. apply sp_class_ok_nodrive. exact Hd.
+  intros Hs Hsp Hk. destruct (known_exact_nobase input sch R Hs Hk) as [Hf Hd]. rewrite Hsp in Hd.
+  unfold in_class_special. rewrite Hs, Hsp, Hf. cbn [negb andb]. exact (k_special_class_ok R Hd).
 Qed.
 
 (* C01_statement for inputs with a special scheme and no base: outside Known_C01 the two sides agree *)
